@@ -142,6 +142,11 @@ ImplEnumLabelsP == IF First THEN TRUE ELSE
         IN /\ TrueVars(r) \subseteq DOMAIN r.map
            /\ \A x \in VarsOf(out) : x < n => x \in img
            /\ (~St.op[3] => out = Relabel(PolyOf(r.ts), r.map))
+           \* a reduced boolean form: labels >= n are ancillas, and every assignment of the model's variables has an
+           \* extension over them on which the form takes the model's value (so no label serves both purposes)
+           /\ ((St.op[3] /\ ~IsSpin(r.kind)) =>
+                  \A X \in SUBSET TrueVars(r) : \E A \in SUBSET {z \in VarsOf(out) : z >= n} :
+                      EvalB(out, {r.map[x] : x \in X} \cup A) = EvalB(PolyOf(r.ts), X))
            \* ancillas created by a reduction (hook H1): strictly above every reported variable, not a mapped label
            /\ \A z \in ToSet(St.cert_z) : z >= n /\ z \notin {r.map[x] : x \in DOMAIN r.map})
 \* a constraint method records a polynomial of its own, getters and info dictionaries are independent objects: the marker
